@@ -44,18 +44,29 @@ Definition key_fits (pk cc : bytes) : bool := fc_fits pk cc CBig.
 (* setCached: len(key) + len(entry) >= maxCachedEntrySize *)
 Definition too_big (pk cc v : bytes) : bool := cache_max_entry_size <=? blen pk + blen cc + 8 + blen v.
 
+(* cacheableKey: len(key) + len(uncacheable) < maxCachedEntrySize *)
+Definition cacheable_key (pk cc : bytes) : bool := blen pk + blen cc + 1 <? cache_max_entry_size.
+
+(* [kg] = true: under a key for which not even the mark fits nothing is stored at all, "known missing"
+   included (setCached / setAbsent test cacheableKey first: the code since the repair of F26b); false: no
+   such test (the code before) *)
+Definition key_skipped (kg : bool) (pk cc : bytes) : bool := kg && negb (cacheable_key pk cc).
+
 (* every store of a found row.  [bm] = true: through setCached, which stores the mark instead of an entry
    that is too big (the code since the repair of F26); false: the entry goes to fastcache as it is, which
    ignores it when it does not fit - the cache is left UNCHANGED (the code before) *)
-Definition set_pos (bm : bool) (c : cache) (pk cc : bytes) (exp : Z) (v : bytes) : cache :=
-  if bm && too_big pk cc v then fc_set c pk cc CBig else fc_set c pk cc (CPos exp v).
-Definition set_neg (c : cache) (pk cc : bytes) : cache := fc_set c pk cc CNeg.
+Definition set_pos (bm kg : bool) (c : cache) (pk cc : bytes) (exp : Z) (v : bytes) : cache :=
+  if key_skipped kg pk cc then c
+  else if bm && too_big pk cc v then fc_set c pk cc CBig else fc_set c pk cc (CPos exp v).
+(* every store of "known missing" (setAbsent) *)
+Definition set_neg (kg : bool) (c : cache) (pk cc : bytes) : cache :=
+  if key_skipped kg pk cc then c else fc_set c pk cc CNeg.
 
 (* fills under `if !alreadyCached` (a mark is an entry) *)
-Definition set_neg_if_absent (c : cache) (pk cc : bytes) : cache :=
-  match c_get c pk cc with Some _ => c | None => set_neg c pk cc end.
-Definition set_pos_if_absent (bm : bool) (c : cache) (pk cc : bytes) (v : bytes) : cache :=
-  match c_get c pk cc with Some _ => c | None => set_pos bm c pk cc 0 v end.
+Definition set_neg_if_absent (kg : bool) (c : cache) (pk cc : bytes) : cache :=
+  match c_get c pk cc with Some _ => c | None => set_neg kg c pk cc end.
+Definition set_pos_if_absent (bm kg : bool) (c : cache) (pk cc : bytes) (v : bytes) : cache :=
+  match c_get c pk cc with Some _ => c | None => set_pos bm kg c pk cc 0 v end.
 
 (* what a read finds in the cache: an answer, or nothing it can use (no entry, or the mark) *)
 Definition c_answer (c : cache) (pk cc : bytes) : option centry :=
@@ -71,22 +82,22 @@ Record cst := mkC { c_under : U; c_cache : cache; c_now : Z }.
 
 Definition c_expired (now exp : Z) : bool := (0 <? exp) && (exp <=? now).
 
-Definition fill_positive (bm : bool) (c : cache) (pk cc v : bytes) : cache :=
-  if cache_positive_fill_guarded then set_pos_if_absent bm c pk cc v else set_pos bm c pk cc 0 v.
+Definition fill_positive (bm kg : bool) (c : cache) (pk cc v : bytes) : cache :=
+  if cache_positive_fill_guarded then set_pos_if_absent bm kg c pk cc v else set_pos bm kg c pk cc 0 v.
 
-Definition fill_positive_batch (bm : bool) (c : cache) (pk cc v : bytes) : cache :=
-  if cache_batch_fill_guarded then set_pos_if_absent bm c pk cc v else set_pos bm c pk cc 0 v.
+Definition fill_positive_batch (bm kg : bool) (c : cache) (pk cc v : bytes) : cache :=
+  if cache_batch_fill_guarded then set_pos_if_absent bm kg c pk cc v else set_pos bm kg c pk cc 0 v.
 
-Definition cache_step_gen (bm : bool) (s : cst) (o : sop) : cst * sout :=
+Definition cache_step_gen (bm kg : bool) (s : cst) (o : sop) : cst * sout :=
   let u := c_under s in let c := c_cache s in let now := c_now s in
   match o with
   | OPut pk cc v =>
       let '(u', out) := ustep u o in
-      (mkC u' (match out with RUnit => set_pos bm c pk cc 0 v | _ => c end) now, out)
+      (mkC u' (match out with RUnit => set_pos bm kg c pk cc 0 v | _ => c end) now, out)
   | OPutBatch items =>
       let '(u', out) := ustep u o in
       (mkC u' (match out with
-               | RUnit => fold_left (fun c it => set_pos bm c (fst (fst it)) (snd (fst it)) 0 (snd it)) items c
+               | RUnit => fold_left (fun c it => set_pos bm kg c (fst (fst it)) (snd (fst it)) 0 (snd it)) items c
                | _ => c end) now, out)
   | OGet pk cc =>
       match c_answer c pk cc with
@@ -95,8 +106,8 @@ Definition cache_step_gen (bm : bool) (s : cst) (o : sop) : cst * sout :=
       | Some CBig | None =>
           let '(u', out) := ustep u o in
           match out with
-          | RGet (Some v) => (mkC u' (fill_positive bm c pk cc v) now, out)
-          | RGet None => (mkC u' (set_neg_if_absent c pk cc) now, out)
+          | RGet (Some v) => (mkC u' (fill_positive bm kg c pk cc v) now, out)
+          | RGet None => (mkC u' (set_neg_if_absent kg c pk cc) now, out)
           | _ => (mkC u' c now, out)
           end
       end
@@ -108,20 +119,20 @@ Definition cache_step_gen (bm : bool) (s : cst) (o : sop) : cst * sout :=
         match out with
         | RBatch vs =>
             (mkC u' (fold_left (fun c ccv => match snd ccv with
-                                             | Some v => fill_positive_batch bm c pk (fst ccv) v
-                                             | None => set_neg_if_absent c pk (fst ccv)
+                                             | Some v => fill_positive_batch bm kg c pk (fst ccv) v
+                                             | None => set_neg_if_absent kg c pk (fst ccv)
                                              end) (combine ccs vs) c) now, out)
         | _ => (mkC u' c now, out)
         end
   | OIns pk cc v ttl =>
       let '(u', out) := ustep u o in
-      (mkC u' (match out with RBool true => set_pos bm c pk cc (exp_of now ttl) v | _ => c end) now, out)
+      (mkC u' (match out with RBool true => set_pos bm kg c pk cc (exp_of now ttl) v | _ => c end) now, out)
   | OCas pk cc old new ttl =>
       let '(u', out) := ustep u o in
-      (mkC u' (match out with RBool true => set_pos bm c pk cc (exp_of now ttl) new | _ => c end) now, out)
+      (mkC u' (match out with RBool true => set_pos bm kg c pk cc (exp_of now ttl) new | _ => c end) now, out)
   | OCad pk cc e =>
       let '(u', out) := ustep u o in
-      (mkC u' (match out with RBool true => if cache_delete_leaves_marker then set_neg c pk cc else c_del c pk cc | _ => c end) now, out)
+      (mkC u' (match out with RBool true => if cache_delete_leaves_marker then set_neg kg c pk cc else c_del c pk cc | _ => c end) now, out)
   | OTTLGet pk cc =>
       match c_answer c pk cc with
       | Some CNeg => (s, RGet None)
@@ -130,7 +141,7 @@ Definition cache_step_gen (bm : bool) (s : cst) (o : sop) : cst * sout :=
       | Some CBig | None =>
           let '(u', out) := ustep u o in
           match out with
-          | RGet None => (mkC u' (set_neg_if_absent c pk cc) now, out)
+          | RGet None => (mkC u' (set_neg_if_absent kg c pk cc) now, out)
           | _ => (mkC u' c now, out)
           end
       end
@@ -140,16 +151,16 @@ Definition cache_step_gen (bm : bool) (s : cst) (o : sop) : cst * sout :=
       let '(u', out) := ustep u o in (mkC u' c (now + d), out)
   end.
 
-(* the code as it is: the flag read from the source *)
-Definition cache_step := cache_step_gen cache_big_values_marked.
+(* the code as it is: the flags read from the source *)
+Definition cache_step := cache_step_gen cache_big_values_marked cache_key_guard.
 
-Fixpoint run_cache_gen (bm : bool) (s : cst) (ops : list sop) : list sout :=
+Fixpoint run_cache_gen (bm kg : bool) (s : cst) (ops : list sop) : list sout :=
   match ops with
   | [] => []
-  | o :: r => let '(s', out) := cache_step_gen bm s o in out :: run_cache_gen bm s' r
+  | o :: r => let '(s', out) := cache_step_gen bm kg s o in out :: run_cache_gen bm kg s' r
   end.
 
-Definition run_cache := run_cache_gen cache_big_values_marked.
+Definition run_cache := run_cache_gen cache_big_values_marked cache_key_guard.
 
 End Seq.
 
